@@ -50,10 +50,17 @@ RULE = (
     'size ladder: histogram volumes and indirect-mode energy grids just below / at / just above 2^10, '
     '2^13 (=default chunk size 8192), 2^16, 2^18, 2^20 elements and random sizes in between, in '
     'memory and on disk, 1e5 pixels in one chunk, and per run two heavy files with an n-d array '
-    'beyond 2^22 elements (histogram in memory ~100 MB; energy grid of a data block ~35 MB). '
+    'beyond 2^22 elements (histogram in memory ~100 MB; energy grid of a data block ~35 MB); '
+    'sequences of builds on ONE real path, so that the output file already exists when create() runs: an '
+    'older SQW file that is shorter / longer / of the same size / of the other byte order, the same builder '
+    'created again after further calls (fewer pixels, unchanged, more blocks), other bytes of the same / a '
+    'larger / a smaller size, an empty file, the path reached through a symbolic link, path as str or '
+    'os.PathLike; the byteorder keyword in every public form (\'little\' / \'big\' / \'native\', Byteorder '
+    'members, Byteorder.native(), left out); every file is re-opened with the byte order deduced and given '
+    'explicitly (string, enum member). '
     'distinct = distinct (program set, length, byte order, pixel class, chunk relation, runs class, '
-    'mode, string class, target, keyword/dtype/unit/size variant) signatures; the empty program in '
-    'native order is the only trivial one'
+    'mode, string class, target, keyword/dtype/unit/size variant, state of the output path) signatures; the '
+    'empty program in native order on a fresh target is the only trivial one'
 )
 ASSUMPTIONS = [
     'the container layout is the one in docs/developer/file-formats/sqw.md; struct / object '
@@ -68,6 +75,10 @@ ASSUMPTIONS = [
     'unit of their row (a unit conversion of such a row is scipp arithmetic in that dtype)',
     'the n_dims field of the file header is the n_dims keyword of add_pixel_data (default 4; 0 '
     'without pixel data)',
+    'a real output path that already holds a file is replaced: after create() the file at the path is '
+    'exactly the container (open mode "wb"); a second create() of one builder writes what the builder holds '
+    'after all calls made so far (a repeated call replaces what the earlier one registered); BytesIO targets '
+    'are always handed over empty (what a stream holds before is its owner\'s business)',
     'sizes are bounded by the memory budget: arrays up to ~4.4e6 elements; the u32 size field of the '
     'allocation table (blocks >= 4 GiB) is not exercised',
 ]
@@ -162,18 +173,65 @@ def _f32_halfway(rng, n):
     return (a.astype(np.float64) + b.astype(np.float64)) / 2.0 * rng.choice([-1.0, 1.0], size=n)
 
 
-def gen_row_values(rng, n, dtype, value_class):
-    """Row values (numpy) of one pixel row; forced classes first when they fit."""
+F32MAX = float(np.finfo(np.float32).max)           # 2^128 - 2^104
+F32_OVERFLOW = 2.0 ** 128 - 2.0 ** 103            # round-to-nearest-even: |x| >= this rounds to +-inf
+F32_TINY = 2.0 ** -126                            # smallest normal float32; denormal step 2^-149
+# rough factors, only used to PLACE supplied values near the ends of the float32 range after the
+# unit conversion (expected values never use this table)
+UNIT_SCALE = {'1/angstrom': 1.0, '1/nm': 0.1, 'meV': 1.0, 'ueV': 1e-3, 'eV': 1e3}
+
+
+def f32_range_ends():
+    """Magnitudes at the two ends of the float32 range (the 'rounded once to float32' clause
+    at its boundaries): largest finite float32, the overflow threshold and its float64
+    neighbours, 2^128, values well beyond; smallest denormal, its rounding ties, the
+    normal / denormal boundary, values that round to zero."""
+    t = F32_OVERFLOW
+    hi = [F32MAX, np.nextafter(F32MAX, 0.0), np.nextafter(F32MAX, np.inf), F32MAX + 2.0 ** 102, t,
+          np.nextafter(t, 0.0), np.nextafter(t, np.inf), 2.0 ** 128, 3.4e38, 3.5e38, 1e39, 2e39, 1e300]
+    lo = [2.0 ** -149, 2.0 ** -150, np.nextafter(2.0 ** -150, 1.0), np.nextafter(2.0 ** -150, 0.0),
+          1.5 * 2.0 ** -149, F32_TINY, np.nextafter(F32_TINY, 0.0), F32_TINY * (1 - 2.0 ** -24), 1e-46, 1e-310]
+    return np.array(hi + lo)
+
+
+def gen_row_values(rng, n, dtype, value_class, ratio=1.0):
+    """Row values (numpy) of one pixel row; forced classes first when they fit.
+
+    ``value_class`` 'extreme': finite values over the whole float64 range, i.e. also beyond
+    both ends of the float32 range they are stored in (``ratio`` = rough factor of the unit
+    conversion of the row: part of the values is placed so that the CONVERTED value lies at
+    the ends of the float32 range)."""
     if dtype in ('int64', 'int32'):
-        hi = 2**20 if value_class != 'wide' or dtype == 'int32' else 2**40
+        hi = 2**20 if value_class not in ('wide', 'extreme') or dtype == 'int32' else 2**40
         return rng.integers(0, hi, size=n).astype(dtype)
-    mag = 10.0 ** rng.uniform(-30, 29, size=n) if value_class == 'wide' else \
-        10.0 ** rng.uniform(-3, 3, size=n)
+    extreme = value_class == 'extreme'
+    if extreme and dtype == 'float32':
+        mag = np.minimum(10.0 ** rng.uniform(-45.5, 38.6, size=n), F32MAX)
+    elif extreme:
+        band = rng.integers(0, 4, size=n)
+        expo = np.choose(band, [rng.uniform(-30, 29, size=n), rng.uniform(37.5, 39.5, size=n),
+                                rng.uniform(39.5, 299, size=n), rng.uniform(-320, -37, size=n)])
+        mag = 10.0 ** expo
+        mag = np.where((band == 1) & (rng.random(n) < 0.5), mag / ratio, mag)
+    elif value_class == 'wide':
+        mag = 10.0 ** rng.uniform(-30, 29, size=n)
+    else:
+        mag = 10.0 ** rng.uniform(-3, 3, size=n)
     v = mag * rng.choice([-1.0, 1.0], size=n)
     forced = np.concatenate([
         [0.0, -0.0, 5e-324, -5e-324, 1e-40, -3e-42, 1.0, -2.5],
         _f32_exact(rng, 4), _f32_halfway(rng, 4),
     ])
+    if extreme:
+        ends = f32_range_ends()
+        if dtype == 'float32':
+            with np.errstate(over='ignore'):
+                rep = ends.astype(np.float32).astype(np.float64) == ends
+            ends = ends[rep & (ends <= F32MAX)]
+        parts = [forced, ends * rng.choice([-1.0, 1.0], size=len(ends))]
+        if ratio != 1.0 and dtype != 'float32':
+            parts.append(ends / ratio * rng.choice([-1.0, 1.0], size=len(ends)))
+        forced = np.concatenate(parts)
     k = min(n, len(forced))
     if value_class != 'plain' and k:
         pos = rng.permutation(n)[:k]
@@ -264,6 +322,7 @@ def gen_pixels(rng, case, runs):
     n = case['npix']
     vclass = case['values']
     plan = case.get('dtypes', 'mixed')
+    uplan = case.get('unit_plan')
     names, units, pass_rows = choose_rowset(rng, case.get('rowset', 'default'))
     declared = dict(zip(ROWS, ROW_UNITS, strict=True))
     declared.update({k: v[0] for k, v in EXTRA_ROWS.items()})
@@ -275,13 +334,20 @@ def gen_pixels(rng, case, runs):
         kind = ROW_KIND[name]
         dt = dt_data if kind == 'data' else _row_dtype(rng, plan, kind)
         unit = declared[name]
+        ratio = 1.0
         if dt == 'float64' and kind == 'float' and unit in CONVERTIBLE:
             opts = CONVERTIBLE[unit]
-            unit = opts[int(rng.integers(0, len(opts)))]
+            pick = opts[int(rng.integers(0, len(opts)))]
+            if uplan in ('up', 'down'):
+                # the input unit whose conversion to the declared unit multiplies by the largest
+                # ('up') / smallest ('down') factor
+                pick = (max if uplan == 'up' else min)(opts, key=lambda o: UNIT_SCALE[o] / UNIT_SCALE[unit])
+            ratio = UNIT_SCALE[pick] / UNIT_SCALE[unit]
+            unit = pick
         if kind == 'index' and dt in ('float64', 'float32'):
             vals = rng.integers(0, 2**20, size=n).astype(dt)
         else:
-            vals = gen_row_values(rng, n, dt, vclass)
+            vals = gen_row_values(rng, n, dt, vclass, ratio)
         if name == 'irun':
             vals = (vals % max(runs, 1)).astype(vals.dtype)
         if name == 'error':
@@ -484,20 +550,45 @@ def build_models(S, sc, spec, program):
     return m
 
 
-def run_program(S, case, spec, models, target):
+BYTEORDER_FORMS = ('str', 'enum', 'omit')
+
+
+def byteorder_keyword(S, case):
+    """The ``byteorder`` keyword of Sqw.build in the form the case asks for: the strings
+    'little' / 'big' / 'native', the Byteorder enum members (for native: Byteorder.native()),
+    or left out (native only)."""
+    how, bo = case.get('byteorder_as', 'str'), case['byteorder']
+    if how == 'enum':
+        return {'byteorder': S.Byteorder.native() if bo == 'native' else S.Byteorder[bo]}
+    if how == 'omit' and bo == 'native':
+        return {}
+    return {'byteorder': bo}
+
+
+def byteorder_form(case):
+    how, bo = case.get('byteorder_as', 'str'), case['byteorder']
+    if how == 'omit' and bo != 'native':
+        how = 'str'
+    return f'{how}:{bo}'
+
+
+def run_program(S, case, spec, models, target, session=None):
     """Drive the real builder: the program of ``case`` followed by create().  Which public
     keywords are passed (title, byteorder as str / enum / default, rows + row_units, n_dims,
-    chunk_size) is part of the case."""
-    kw = {}
-    if case.get('pass_title', True):
-        kw['title'] = spec['title']
-    how = case.get('byteorder_as', 'str')
-    if how == 'enum':
-        kw['byteorder'] = S.Byteorder[resolved(case['byteorder'])]
-    elif not (how == 'omit' and case['byteorder'] == 'native'):
-        kw['byteorder'] = case['byteorder']
-    b = S.Sqw.build(target, **kw)
-    for call in case['program']:
+    chunk_size) is part of the case.  A case with ``continue_builder`` goes on with the builder
+    object of the previous case of its sequence (``session``): further calls, then a second
+    create() on the same path."""
+    if case.get('continue_builder'):
+        b = session['builder']
+    else:
+        kw = {}
+        if case.get('pass_title', True):
+            kw['title'] = spec['title']
+        kw.update(byteorder_keyword(S, case))
+        b = S.Sqw.build(target, **kw)
+    if session is not None:
+        session['builder'] = b
+    for call in case.get('calls', case['program']):
         if call == 'pix':
             kw = {}
             px = spec['pix']
@@ -518,6 +609,120 @@ def run_program(S, case, spec, models, target):
     if case['chunk'] is None:
         return b.create()
     return b.create(chunk_size=case['chunk'])
+
+
+# ---- sequences on one path: files that already exist when create() runs ----
+SPEC_PARTS = {'pix': ('pix', 'experiments'), 'inst': ('instrument',), 'samp': ('sample',), 'dnd': ('dnd',),
+              'det': ()}
+CASE_PARTS = {'pix': ('npix', 'nruns', 'mode', 'values', 'rowset', 'dtypes', 'n_dims', 'run_ids', 'ndet', 'n_en',
+                      'unit_plan'),
+              'dnd': ('dnd_bins',)}
+BUILDER_KEYS = ('byteorder', 'byteorder_as', 'pass_title', 'target', 'path', 'path_as')
+
+
+def continue_from(session, case, spec):
+    """The effective case / spec of a case that goes on with the builder of the previous case:
+    what that builder holds after the further calls (a repeated call replaces what the earlier
+    one registered; title, byte order and path are those the builder was made with)."""
+    if not case.get('continue_builder'):
+        return case, spec
+    prev_case, prev_spec = session['case'], session['spec']
+    calls = list(case['program'])
+    eff_spec = dict(prev_spec)
+    eff = dict(case)
+    for k in BUILDER_KEYS:
+        eff[k] = prev_case[k]
+    for part, keys in CASE_PARTS.items():
+        if part not in calls:
+            for k in keys:
+                eff[k] = prev_case.get(k)
+    for call in calls:
+        for k in SPEC_PARTS[call]:
+            eff_spec[k] = spec[k]
+    eff['calls'] = calls
+    eff['program'] = list(prev_case['program']) + [c for c in calls if c not in prev_case['program']]
+    return eff, eff_spec
+
+
+def open_target(case, tmpdir, rng, session):
+    """The target of a case.  Cases of a sequence share one path (``reuse_path``), so the file
+    of the previous case is still there when create() runs; ``scribble`` replaces it by other
+    bytes of the same / a larger / a smaller size / no bytes first; ``link`` reaches it through
+    a symbolic link.  What is at the path is recorded in case['existing']."""
+    if case['target'] == 'bytesio':
+        return io.BytesIO()
+    if case.get('reuse_path') and session.get('path'):
+        path = session['path']
+    else:
+        path = target_for(case, tmpdir, rng)
+        if case.get('reuse_path'):
+            session['path'] = path
+    session.setdefault('paths', [])
+    if case.get('link') == 'symlink':
+        link = path + '.lnk'
+        if not os.path.lexists(link):
+            os.symlink(path, link)
+        session['paths'].append(link)
+        path = link
+    if case.get('continue_builder'):
+        path = session['target']        # the builder holds its path
+    if case.get('keep_file'):
+        session['paths'].append(path)
+    existed = os.path.exists(path)
+    content = 'sqw' if existed else None
+    how = case.get('scribble')
+    if how:
+        n0 = os.path.getsize(path) if existed else 4096
+        size = {'same': n0, 'longer': max(3 * n0 + 17, 1 << 17), 'shorter': max(n0 // 2, 1), 'empty': 0}[how]
+        fill = case.get('scribble_fill', 'random')
+        data = b'\xff' * size if fill == 'ones' else bytes(size) if fill == 'zeros' else \
+            np.random.Generator(np.random.PCG64([*case['vseed'], 77])).bytes(size)
+        with open(path, 'wb') as fh:
+            fh.write(data)
+        existed, content = True, 'garbage'
+    if existed:
+        last = session.get('last_bo')
+        case['existing'] = {'size': os.path.getsize(path), 'content': content,
+                            'other_byteorder': bool(content == 'sqw' and last is not None
+                                                    and last != resolved(case['byteorder']))}
+    if case.get('path_as') == 'Path' and not case.get('continue_builder'):
+        import pathlib
+        path = pathlib.Path(path)
+    session['target'] = path
+    return path
+
+
+def container_length(f):
+    """End of the container a decoded file describes (end of the last extent)."""
+    if f is None or f.header_error or f.bat_error:
+        return None
+    return max([f.bat_end] + [d.position + d.size for d in f.descriptors])
+
+
+def close_case(session, case, spec, target, f):
+    """After a case was judged: how the file that was at the path compares with the container
+    now written; what the next case of the sequence needs; removal of the file."""
+    ex = case.get('existing')
+    n = container_length(f)
+    if ex is not None and n is not None:
+        ex['relation'] = 'empty' if ex['size'] == 0 else 'longer' if ex['size'] > n else \
+            'shorter' if ex['size'] < n else 'same_size'
+    if case.get('reuse_path'):
+        session.update(case=case, spec=spec, last_bo=resolved(case['byteorder']))
+    if not isinstance(target, io.BytesIO) and not case.get('keep_file'):
+        try:
+            os.remove(target)
+        except OSError:
+            pass
+
+
+def close_item(session):
+    for p in reversed(session.get('paths', [])):
+        try:
+            os.remove(p)
+        except OSError:
+            pass
+    session.clear()
 
 
 def case_reps(case):
@@ -552,7 +757,9 @@ def _base_case(**kw):
          'target': 'bytesio', 'values': 'forced', 'run_ids': 'seq', 'path': 'plain',
          # public keywords / dtypes / units of the supplied objects
          'rowset': 'default', 'dtypes': 'mixed', 'meta': 'random', 'n_dims': None, 'pass_title': True,
-         'byteorder_as': 'str', 'dnd_bins': None, 'ndet': None, 'n_en': None, 'repeat': 1}
+         'byteorder_as': 'str', 'dnd_bins': None, 'ndet': None, 'n_en': None, 'repeat': 1,
+         # state of the output path / further use of the builder (sequences on one path)
+         'path_as': 'str', 'unit_plan': None}
     c.update(kw)
     if c['byteorder'] != 'native' and c['byteorder_as'] == 'omit':
         c['byteorder_as'] = 'str'
@@ -704,7 +911,7 @@ def make_items(tier: str, seed: int) -> list[dict]:
                     'length': int(rng.choice([0, 1, 5, 30, 300]))},
             target='file' if rng.random() < 0.3 else 'bytesio',
             path=('plain', 'nonascii')[int(rng.integers(0, 2))],
-            values=('forced', 'wide', 'plain')[int(rng.integers(0, 3))],
+            values=('forced', 'wide', 'plain', 'extreme')[int(rng.integers(0, 4))],
             run_ids='seq' if rng.random() < 0.7 else 'random', **rand_variant(rng))
     # (G) public keywords and dtypes: every row-set class x every dtype plan (incl. all rows of one
     #     dtype), every n_dims, title / byteorder keyword forms, both targets, all byte orders
@@ -782,10 +989,81 @@ def make_items(tier: str, seed: int) -> list[dict]:
         single(pin=N_SHARDS - 3, program=shuffled(['dnd', 'pix', 'samp']),
                dnd_bins=shape_near(rng, HEAVY + (HEAVY >> 4), 'above'), target='file',
                byteorder=orders[(seed + 2) % 3], npix=11)
+    # (K) files that ALREADY EXIST at the output path when create() runs: sequences of builds on one
+    #     path (the file of the previous step stays): an older SQW file that is shorter / longer / of
+    #     the same size / of the other byte order, the same builder created again after further calls
+    #     (fewer pixels, no change, more blocks), other bytes of the same / a larger / a smaller size,
+    #     an empty file, the path reached through a symbolic link; path given as str or os.PathLike
+    def sequence(steps, **common):
+        cases = []
+        for st in steps:
+            kw = {**rand_variant(rng), **common, **st}
+            if kw.get('continue_builder'):
+                kw.setdefault('byteorder', cases[-1]['byteorder'])
+            cases.append(_base_case(target='file', reuse_path=True, keep_file=True, **kw))
+        items.append({'kind': 'same_path', 'cases': cases})
+
+    def title(n):
+        return {'field': 'title', 'alphabet': 'ascii', 'length': n}
+
+    for k, bo in enumerate(orders):
+        other = 'big' if resolved(bo) == 'little' else 'little'
+        sequence([
+            dict(program=shuffled(CALLS), npix=300, nruns=3, byteorder=bo, string=title(40)),
+            dict(program=shuffled(CALLS), npix=2000, nruns=3, byteorder=bo, chunk=64),   # over a shorter file
+            dict(program=with_pix(), npix=30, nruns=1, byteorder=bo, chunk=3, string=title(0)),   # over a longer one
+            dict(continue_builder=True, program=['pix'], npix=7, nruns=1, chunk=2),     # same builder, fewer pixels
+            dict(continue_builder=True, program=[]),                                    # ... unchanged: same size
+            dict(continue_builder=True, program=shuffled(CALLS), npix=40, nruns=2),     # ... more blocks
+            dict(program=[], byteorder=other, pass_title=True),   # header and table only, other byte order
+            dict(program=[], byteorder=other, pass_title=True, scribble='same',
+                 scribble_fill=('random', 'ones', 'zeros')[k]),
+            dict(program=with_pix(), byteorder=other, npix=5, scribble='longer'),
+            dict(program=shuffled(CALLS), byteorder=bo, npix=50, scribble='empty'),
+            dict(program=['pix'], byteorder=other, npix=3, nruns=1, link='symlink'),    # through a symlink
+            dict(program=shuffled(CALLS), byteorder=bo, npix=5, scribble='shorter'),
+        ], path=('plain', 'nonascii', 'deep')[(k + seed) % 3], path_as=('str', 'Path')[(k + seed) % 2],
+            rowset='default')
+    for _ in range(0 if not thorough else 40):
+        steps = []
+        for m in range(int(rng.integers(2, 9))):
+            st = dict(program=shuffled([x for x in CALLS if rng.random() < 0.6]),
+                      npix=int(rng.choice([0, 1, 5, 50, 500, 3000])), nruns=int(rng.integers(1, 4)),
+                      chunk=[None, 1, 7, 64][int(rng.integers(0, 4))], byteorder=orders[int(rng.integers(0, 3))],
+                      string=title(int(rng.choice([0, 5, 300]))))
+            r = rng.random()
+            if m and r < 0.3:
+                st['continue_builder'] = True
+                del st['byteorder']
+            elif r < 0.6:
+                st['scribble'] = ('same', 'longer', 'shorter', 'empty')[int(rng.integers(0, 4))]
+                st['scribble_fill'] = ('random', 'ones', 'zeros')[int(rng.integers(0, 3))]
+            elif m and r < 0.7:
+                st['link'] = 'symlink'
+            steps.append(st)
+        sequence(steps, path=('plain', 'nonascii', 'deep', 'long')[int(rng.integers(0, 4))],
+                 path_as=('str', 'Path')[int(rng.integers(0, 2))])
+    # (L) pixel values over the whole finite float64 range, i.e. beyond both ends of the float32 range
+    #     they are stored in: rows without conversion, rows whose conversion multiplies ('up') or
+    #     divides ('down') the value, default and non-default declared units, variances, extra rows
+    combos = (('default', 'up', 'all_f64'), ('custom_units', 'up', 'all_f64'), ('default', 'down', 'all_f64'),
+              ('superset', None, 'mixed'))
+    for k in range(12 if not thorough else 120):
+        rowset, uplan, plan_ = combos[k % 4]
+        single(program=with_pix(), values='extreme', rowset=rowset, unit_plan=uplan, dtypes=plan_,
+               byteorder=orders[(k + seed) % 3], target=('bytesio', 'file')[(k // 4 + k) % 2],
+               npix=(96, 200, 150)[k % 3] if k < 12 else int(rng.integers(1, 400)),
+               chunk=(None, 7, 96, 1000)[(k // 3) % 4], nruns=int(rng.integers(1, 4)))
+    # (M) the byteorder keyword of the builder in every public form x both targets
+    for k, (how, bo) in enumerate([('str', 'little'), ('str', 'big'), ('str', 'native'), ('enum', 'little'),
+                                   ('enum', 'big'), ('enum', 'native'), ('omit', 'native')]):
+        for tgt in ('bytesio', 'file'):
+            single(program=shuffled(CALLS), byteorder=bo, byteorder_as=how, target=tgt,
+                   npix=int(rng.choice([0, 3, 50])))
     for i, it in enumerate(items):
         it['item'] = i
         for j, c in enumerate(it['cases']):
-            c['vseed'] = [seed, 12, i, j if it['kind'] == 'single' else 0]
+            c['vseed'] = [seed, 12, i, j if it['kind'] != 'perm_group' else 0]
             c['tier'] = tier
     return items
 
@@ -886,6 +1164,20 @@ def size_class(case):
     return '+'.join(out) or '-'
 
 
+def existing_class(case):
+    """What was at the output path when create() ran / how the builder was used."""
+    ex = case.get('existing')
+    out = 'fresh' if ex is None else '%s:%s%s' % (ex['content'], ex.get('relation'),
+                                                  ':other_byteorder' if ex['other_byteorder'] else '')
+    if case.get('continue_builder'):
+        out += '+same_builder'
+    if case.get('link'):
+        out += '+' + case['link']
+    if case.get('path_as', 'str') != 'str':
+        out += '+' + case['path_as']
+    return out
+
+
 def signature(case, spec=None):
     n = case['npix']
     ncls = '0' if n == 0 else '1' if n == 1 else '<=9' if n <= 9 else '<=100' if n <= 100 else \
@@ -899,7 +1191,8 @@ def signature(case, spec=None):
     variant = (case.get('rowset', 'default') if has_pix else '-', case.get('dtypes', 'mixed') if has_pix else '-',
                case.get('meta', 'random'), 'nd=%s' % case.get('n_dims') if has_pix else '-',
                't' if case.get('pass_title', True) else 'no-title', case.get('byteorder_as', 'str'),
-               size_class(case), 'x%d' % case.get('repeat', 1), 'rep%d' % case.get('rep', 0))
+               size_class(case), 'x%d' % case.get('repeat', 1), 'rep%d' % case.get('rep', 0),
+               existing_class(case))
     return (','.join(sorted(case['program'])), len(case['program']), case['byteorder'], ncls,
             chunk_relation(case, nrows), '1' if r == 1 else '<=4' if r <= 4 else '<20' if r < 20 else '20',
             case['mode'], scls, case['target'] + ':' + case.get('path', 'plain'), variant)
@@ -908,7 +1201,8 @@ def signature(case, spec=None):
 def case_summary(case):
     keys = ('program', 'byteorder', 'npix', 'chunk', 'nruns', 'mode', 'string', 'target', 'path', 'values',
             'run_ids', 'vseed', 'rowset', 'dtypes', 'meta', 'n_dims', 'pass_title', 'byteorder_as', 'dnd_bins',
-            'ndet', 'n_en', 'repeat', 'rep', 'rows', 'row_units', 'row_dtypes')
+            'ndet', 'n_en', 'repeat', 'rep', 'rows', 'row_units', 'row_dtypes', 'unit_plan', 'path_as',
+            'continue_builder', 'calls', 'scribble', 'scribble_fill', 'link', 'existing')
     return {k: case[k] for k in keys if k in case and case[k] is not None}
 
 
@@ -967,6 +1261,20 @@ def hit_forced(ctx, case, spec=None):
     if not case.get('pass_title', True):
         ctx.hit('kw:title_default')
     ctx.hit('kw:byteorder_' + case.get('byteorder_as', 'str'))
+    ctx.hit('kw:byteorder=' + byteorder_form(case))
+    ex = case.get('existing')
+    if ex is not None and ex.get('relation'):
+        ctx.hit('existing_file:' + ex['relation'])
+        ctx.hit('existing_file:' + ex['content'])
+        ctx.hit('existing_file:%s:%s' % (ex['content'], ex['relation']))
+        if ex['other_byteorder']:
+            ctx.hit('existing_file:other_byteorder')
+        if case.get('link'):
+            ctx.hit('existing_file:through_' + case['link'])
+        if case.get('continue_builder'):
+            ctx.hit('second_create_of_builder:existing_' + ex['relation'])
+    if case['target'] == 'file' and case.get('path_as', 'str') != 'str':
+        ctx.hit('path_as:' + case['path_as'])
     if case.get('meta') == 'canonical' and resolved(case['byteorder']) != NATIVE and len(case['program']) >= 3:
         ctx.hit('canonical_objects+non_native_order')
     if case.get('meta') in ('f32', 'int'):
@@ -996,7 +1304,15 @@ FORCED = ['chunk>npix', 'chunk==npix', 'chunk<npix', 'chunk<rows', 'chunks*ceil(
           'rows:all_float32', 'rows:all_float64', 'rows:all_int64', 'rows:all_int32', 'kw:rows_default', 'kw:n_dims=0', 'kw:n_dims=4',
           'kw:title_default', 'kw:byteorder_str', 'kw:byteorder_enum', 'kw:byteorder_omit',
           'size:en>2^22', 'size:dnd>2^22:bytesio', 'size:dnd>8192:bytesio', 'size:dnd>8192:file',
-          'canonical_objects+non_native_order', 'meta:f32', 'meta:int', 'second_build_from_same_objects']
+          'canonical_objects+non_native_order', 'meta:f32', 'meta:int', 'second_build_from_same_objects',
+          *('kw:byteorder=' + k for k in ('str:little', 'str:big', 'str:native', 'enum:little', 'enum:big',
+                                          'enum:native', 'omit:native')),
+          'existing_file:longer', 'existing_file:shorter', 'existing_file:same_size', 'existing_file:empty',
+          'existing_file:sqw', 'existing_file:garbage', 'existing_file:sqw:longer', 'existing_file:sqw:shorter',
+          'existing_file:sqw:same_size', 'existing_file:garbage:longer', 'existing_file:garbage:shorter',
+          'existing_file:garbage:same_size', 'existing_file:other_byteorder', 'existing_file:through_symlink',
+          'second_create_of_builder:existing_longer', 'second_create_of_builder:existing_same_size',
+          'second_create_of_builder:existing_shorter', 'path_as:Path']
 
 
 # ------------------------------------------------------------ writer trace ---
@@ -1357,41 +1673,48 @@ def judge_structure(ctx, case, buf, trace, exc=None):
     return f
 
 
+REOPEN_FORMS = ('deduced', 'str', 'enum')
+
+
 def judge_reopen(ctx, S, case, target, f, deduced):
-    """Re-open with the package's reader: byte order, header and block names."""
+    """Re-open with the package's reader: byte order, header and block names; with the byte
+    order deduced from the file (default) and given explicitly as string / enum member."""
     bo = resolved(case['byteorder'])
     cs = case_summary(case)
-    deduced.clear()
-    try:
-        if isinstance(target, io.BytesIO):
-            target.seek(0)
-        with S.Sqw.open(target) as sqw:
-            got_bo = sqw.byteorder.value
-            hdr = sqw.file_header
-            got_names = [tuple(n) for n in sqw.data_block_names()]
-    except Exception as e:  # noqa: BLE001
-        ctx.violation('reopen_raised', f'Sqw.open raised {type(e).__name__}: {e}', cs,
-                      mechanism='reopen')
-        return
-    ctx.event('reopen')
-    for ev_bo in deduced:
-        ctx.event('trace:_deduce_byteorder')
-        if ev_bo != bo:
-            ctx.violation('reopen_byteorder', f'_deduce_byteorder returned {ev_bo}, file was written {bo}',
-                          cs, mechanism='deduce_byteorder')
+    for form in REOPEN_FORMS:
+        kw = {} if form == 'deduced' else {'byteorder': bo if form == 'str' else S.Byteorder[bo]}
+        deduced.clear()
+        try:
+            if isinstance(target, io.BytesIO):
+                target.seek(0)
+            with S.Sqw.open(target, **kw) as sqw:
+                got_bo = sqw.byteorder.value
+                hdr = sqw.file_header
+                got_names = [tuple(n) for n in sqw.data_block_names()]
+        except Exception as e:  # noqa: BLE001
+            ctx.violation('reopen_raised', f'Sqw.open({form} byte order) raised {type(e).__name__}: {e}', cs,
+                          mechanism='reopen', open=form)
             return
-    if got_bo != bo:
-        ctx.violation('reopen_byteorder', f'Sqw.open reports {got_bo}, file was written {bo}', cs,
-                      mechanism='deduce_byteorder')
-        return
-    if f is None or f.bat_error or f.header_error:
-        return
-    if (hdr.prog_name, hdr.prog_version, hdr.sqw_type.value, hdr.n_dims) != (
-            'horace', 4.0, f.header['sqw_type'], f.header['n_dims']):
-        ctx.violation('reopen_header', f'Sqw.open reports header {hdr}', cs, mechanism='reopen_header')
-    if got_names != f.names():
-        ctx.violation('reopen_names', f'Sqw.open lists {got_names}, table holds {f.names()}', cs,
-                      mechanism='reopen_names')
+        ctx.event('reopen' if form == 'deduced' else 'reopen:byteorder_' + form)
+        for ev_bo in deduced:
+            ctx.event('trace:_deduce_byteorder')
+            if ev_bo != bo:
+                ctx.violation('reopen_byteorder', f'_deduce_byteorder returned {ev_bo}, file was written {bo}',
+                              cs, mechanism='deduce_byteorder', open=form)
+                return
+        if got_bo != bo:
+            ctx.violation('reopen_byteorder', f'Sqw.open({form} byte order) reports {got_bo}, file was '
+                          f'written {bo}', cs, mechanism='deduce_byteorder', open=form)
+            return
+        if f is None or f.bat_error or f.header_error:
+            return
+        if (hdr.prog_name, hdr.prog_version, hdr.sqw_type.value, hdr.n_dims) != (
+                'horace', 4.0, f.header['sqw_type'], f.header['n_dims']):
+            ctx.violation('reopen_header', f'Sqw.open({form} byte order) reports header {hdr}', cs,
+                          mechanism='reopen_header', open=form)
+        if got_names != f.names():
+            ctx.violation('reopen_names', f'Sqw.open({form} byte order) lists {got_names}, table holds '
+                          f'{f.names()}', cs, mechanism='reopen_names', open=form)
 
 
 def judge_group(ctx, group_cases, orders_seen):
@@ -1416,6 +1739,7 @@ def judge_group(ctx, group_cases, orders_seen):
 def requirements(tier):
     return {
         'events': {'header': 300, 'bat': 300, 'extents': 300, 'blocks': 1000, 'reopen': 300,
+                   'reopen:byteorder_str': 300, 'reopen:byteorder_enum': 300,
                    'perm_groups': 20, 'trace:pix_data_block': 100, 'trace:dnd_data_block': 100,
                    'trace:data_block': 500, 'trace:_deduce_byteorder': 300},
         'forced': FORCED,
@@ -1460,17 +1784,19 @@ def run(shard, ctx):
         with tr:
             for it in items:
                 orders_seen = []
+                session = {}
                 for case0 in it['cases']:
                     rng = np.random.Generator(np.random.PCG64(case0['vseed']))
                     spec = gen_spec(rng, case0)
-                    models = build_models(S, sc, spec, case0['program'])
+                    case0, spec = continue_from(session, case0, spec)
+                    models = build_models(S, sc, spec, case0.get('calls', case0['program']))
                     describe_rows(case0, spec)
                     for case in case_reps(case0):
-                        target = target_for(case, tmpdir, rng)
+                        target = open_target(case, tmpdir, rng, session)
                         state.update(case=case, target=target, file=None, judged=False)
                         before = ctx.n_violations
                         try:
-                            run_program(S, case, spec, models, target)
+                            run_program(S, case, spec, models, target, session if case.get('reuse_path') else None)
                         except Exception as e:  # noqa: BLE001  (create: judged by the monitor, PY_UNWIND)
                             if not state['judged']:
                                 # a valid builder program did not get as far as create()
@@ -1485,9 +1811,11 @@ def run(shard, ctx):
                         if not case.get('rep'):
                             orders_seen.append((case, f.names() if f is not None and not f.bat_error
                                                 and not f.header_error else None))
+                        close_case(session, case, spec, target, f)
                         hit_forced(ctx, case, spec)
                         ctx.case(signature(case, spec),
-                                 trivial=(not case['program'] and case['byteorder'] == 'native'))
+                                 trivial=(not case['program'] and case['byteorder'] == 'native'
+                                          and case.get('existing') is None))
                         if it['kind'] == 'perm_group':
                             key = tuple(case['program'])
                             if key not in seen_programs:
@@ -1495,14 +1823,10 @@ def run(shard, ctx):
                                 ctx.count('programs_run')
                         if ctx.n_violations > before or (it['item'] % 97 == 0 and case0 is it['cases'][0]):
                             ctx.sample(case_summary(case))
-                        if not isinstance(target, io.BytesIO):
-                            try:
-                                os.remove(target)
-                            except OSError:
-                                pass
                         state.update(target=None, file=None)
                         del target, f
                     del spec, models
+                close_item(session)
                 if it['kind'] == 'perm_group' and len(it['cases']) > 1:
                     judge_group(ctx, it['cases'], orders_seen)
     finally:
